@@ -26,6 +26,7 @@ KINDS = {
     "peer-session-close": ("[]", "[SClose; LLoad; LCas; LClean; LNotify]"),
     "peer-death": ("[]", "[SClose; LLoad; LCas; LClean; LNotify]"),
     "peer-close-queue-full": ("[]", "[PClose1; PClose2]"),
+    "peer-gone-unread-read": ("[]", "[SClose; LLoad; LCas; LClean; LNotify]"),
     "close-vs-callback-start": ("[SetCb; EAdd 4; EFin]", "[LLoad; LCas; LNotify; LClean]"),
     # a read for 8 bytes parked inside OnData with 4 bytes there (w_min = 8, see case_to_coq)
     "ondata-local-session-close": ("[SetCb; EAdd 4; EFin]", "[SClose; LLoad; LCas; LNotify; LClean]"),
@@ -46,6 +47,9 @@ def case_to_coq(c):
     return "{| w_prefix := %s; w_min := %d%%nat; w_helpers := %s; w_obs := %d |}" % (pre % sub, wmin, helpers % sub, c["class"])
 
 
+MODEL_HANGUP = None
+
+
 def eval_cases(cases, tag):
     txt = ["From Coq Require Import List ZArith.", "From Shm Require Import Model.Wait Corr.WaitCorr.",
            "Import ListNotations.", "Open Scope Z_scope.", "Definition cases : list wcase := ["]
@@ -57,6 +61,8 @@ def eval_cases(cases, tag):
     txt.append("Print F.")
     txt.append("Definition Q := Eval vm_compute in peer_close_queue_full.")
     txt.append("Print Q.")
+    txt.append("Definition H := Eval vm_compute in map (fun io => closes_session {| EventConn.ev_rdhup := true; EventConn.ev_in := fst io; EventConn.ev_out := snd io |} RdErr) [(false, false); (false, true); (true, false); (true, true)].")
+    txt.append("Print H.")
     rc, out, _ = core.coq_eval("cases_%s_%s_%d" % (PROP, tag, os.getpid()), "\n".join(txt))
     if rc != 0:
         raise RuntimeError("coqc on the generated cases failed: " + out[-1500:])
@@ -73,6 +79,9 @@ def eval_cases(cases, tag):
     qm = re.search(r"Q\s*=\s*\(\s*(true|false)\s*,\s*(true|false)\s*,\s*(true|false)\s*\)", out)
     if not qm or (qm.group(1), qm.group(2), qm.group(3)) != ("false", "false", "true"):
         raise RuntimeError("model: a Close issued while the io queue is full must succeed and leave its notification in the socket; got %r" % (qm and qm.groups(),))
+    hm = re.search(r"H\s*=\s*\[(.*?)\]", out, re.S)
+    global MODEL_HANGUP
+    MODEL_HANGUP = [x.strip() == "true" for x in hm.group(1).split(";")] if hm else None
     return bad, flush
 
 
@@ -189,6 +198,14 @@ def check(run):
                     3: "model exploration ran out of fuel"}.get(kind, "mismatch")
             run.add_corr_break("T: scenario %s (%s): %s" % (c["id"], c["kind"], what), brief(c))
         # Flush: the implementation's ErrQueueFull after ~bound x 10 ms vs the model's (FRQueueFull, bound)
+        # handleEvent's hang-up dispatch observed on the real connEventHandler (read fails) vs. the model
+        for c in usable:
+            if c["kind"] == "dispatch-hangup" and c.get("disp"):
+                for o in c["disp"]:
+                    idx = (2 if o["in"] else 0) + (1 if o["out"] else 0)
+                    want = MODEL_HANGUP[idx] if MODEL_HANGUP else None
+                    if want is not None and bool(o["closed"]) != want:
+                        run.add_corr_break("D: handleEvent(EPOLLRDHUP, in=%s, out=%s) with a failing read: onRemoteClose called = %s, the model's dispatch (EventConn.handle_event) says %s" % (o["in"], o["out"], o["closed"], want), brief(c))
         ff = [c for c in usable if c["kind"] == "flush-queue-full"]
         if flush and ff:
             bound = int((data or {}).get("consts", {}).get("flushRetryBound", flush[1]))
